@@ -1,4 +1,5 @@
 import Solvor.Lp.Model
+import Solvor.Lp.Milp
 import Mathlib.Algebra.BigOperators.Group.Finset.Basic
 import Mathlib.Algebra.BigOperators.Fin
 import Mathlib.Algebra.Order.BigOperators.Group.Finset
@@ -7,6 +8,7 @@ import Mathlib.Algebra.Order.Field.Basic
 import Mathlib.Algebra.BigOperators.Ring.Finset
 import Mathlib.Tactic.Linarith
 import Mathlib.Tactic.Ring
+import Mathlib.Logic.Relation
 /-!
 Lp: the mathematical side of C03/C04 – linear programs over `Fin m → Fin n → ℚ`, what the three
 verdicts *mean*, and the map from the list data the driver parses to these objects.
@@ -45,12 +47,85 @@ def Verdict : Status → Prop
 /-- feasibility within a tolerance: `x ≥ −tol`, `A x ≤ b + tol` -/
 def FeasTol (tol : ℚ) (x : Fin n → ℚ) : Prop := (∀ j, -tol ≤ x j) ∧ ∀ i, ∑ j, P.A i j * x j ≤ P.b i + tol
 
+/-- integer-feasible point: feasible and integral on `I` (C04) -/
+def MilpFeasible (I : Fin n → Prop) (x : Fin n → ℚ) : Prop :=
+  P.Feasible x ∧ ∀ j, I j → ∃ z : ℤ, x j = z
+
+/-- what `_is_feasible` accepts: `x ≥ −eps`, within `eps` of an integer on `I`, `A x ≤ b + eps` -/
+def MilpFeasTol (I : Fin n → Prop) (eps : ℚ) (x : Fin n → ℚ) : Prop :=
+  (∀ j, -eps ≤ x j) ∧ (∀ j, I j → ∃ z : ℤ, |x j - z| ≤ eps) ∧ ∀ i, ∑ j, P.A i j * x j ≤ P.b i + eps
+
 end LPF
+
+/-- the set of integer variables as a predicate on `Fin n` -/
+def intSet (n : ℕ) (ints : List ℕ) : Fin n → Prop := fun j => j.val ∈ ints
+
+/-- a node of the branch-and-bound tree: lower bounds and optional upper bounds -/
+structure Box (n : ℕ) where
+  lo : Fin n → ℚ
+  hi : Fin n → Option ℚ
+
+def Box.Mem {n : ℕ} (B : Box n) (x : Fin n → ℚ) : Prop :=
+  ∀ k, B.lo k ≤ x k ∧ ∀ h, B.hi k = some h → x k ≤ h
+/-- `upper_left[j] = floor(v)` -/
+def Box.left {n : ℕ} (B : Box n) (j : Fin n) (v : ℚ) : Box n :=
+  ⟨B.lo, Function.update B.hi j (some (v.floor : ℚ))⟩
+/-- `lower_right[j] = ceil(v)` -/
+def Box.right {n : ℕ} (B : Box n) (j : Fin n) (v : ℚ) : Box n :=
+  ⟨Function.update B.lo j (v.ceil : ℚ), B.hi⟩
 
 /-- the list problem as a mathematical LP (missing entries read as `0`; the harness only sends
 rectangular data, `check_matrix_dims` rejects the rest) -/
 def LP.toF (P : LP) : LPF P.m P.n := ⟨fun i j => P.a i j, fun i => vget P.b i, fun j => vget P.c j⟩
 
 def vecF (n : ℕ) (x : Vec) : Fin n → ℚ := fun j => vget x j
+
+/-! ### Abstract branch and bound (the loop of `solve_milp`, lines 159-232)
+
+Points `Pt`, the set `Feas` of integer-feasible points the verdict quantifies over, the filter `Acc`
+every incumbent passes (`_is_feasible`), the objective `obj` (already multiplied by `sign`) and the
+pruning slack `eps`.  A node carries the region of points it stands for and the bound it was pushed
+with (its parent's LP value).  Node LP answers enter the steps as hypotheses (`r` is a lower bound
+of the node / the node has no feasible point); per input they are discharged by the simplex
+certificates.  Heuristics (warm start, rounding, LNS) are arbitrary accepted candidates. -/
+
+structure BNode (Pt : Type) where
+  region : Pt → Prop
+  bound : ℚ
+
+structure BState (Pt : Type) where
+  inc : Option (Pt × ℚ)
+  nodes : List (BNode Pt)
+
+/-- `cand` replaces the incumbent iff strictly better (`sign*sol_obj < sign*best_obj`) -/
+def BState.offer {Pt : Type} (inc : Option (Pt × ℚ)) (p : Pt) (w : ℚ) : Option (Pt × ℚ) :=
+  match inc with
+  | none => some (p, w)
+  | some (q, v) => if w < v then some (p, w) else some (q, v)
+
+inductive BStep {Pt : Type} (Feas Acc : Pt → Prop) (obj : Pt → ℚ) (eps : ℚ) : BState Pt → BState Pt → Prop
+  /-- `if best_solution is not None and node_bound >= sign * best_obj - eps: continue` -/
+  | prune (p v l₁ N l₂) : v - eps ≤ N.bound → BStep Feas Acc obj eps ⟨some (p, v), l₁ ++ N :: l₂⟩ ⟨some (p, v), l₁ ++ l₂⟩
+  /-- node LP not OPTIMAL (certified infeasible): `continue` -/
+  | infeasible (inc l₁ N l₂) : (∀ y, Feas y → ¬ N.region y) → BStep Feas Acc obj eps ⟨inc, l₁ ++ N :: l₂⟩ ⟨inc, l₁ ++ l₂⟩
+  /-- `sign * result.objective >= sign * best_obj - eps: continue` -/
+  | boundDrop (p v l₁ N l₂) (r : ℚ) : (∀ y, Feas y → N.region y → r ≤ obj y) → v - eps ≤ r →
+      BStep Feas Acc obj eps ⟨some (p, v), l₁ ++ N :: l₂⟩ ⟨some (p, v), l₁ ++ l₂⟩
+  /-- the node LP optimum is integral: candidate incumbent, node closed -/
+  | integral (inc l₁ N l₂) (q : Pt) (r : ℚ) : (∀ y, Feas y → N.region y → r ≤ obj y) → Acc q → obj q = r →
+      BStep Feas Acc obj eps ⟨inc, l₁ ++ N :: l₂⟩ ⟨BState.offer inc q r, l₁ ++ l₂⟩
+  /-- branch: two children with the node's LP value as bound -/
+  | branch (inc l₁ N l₂) (L R : BNode Pt) (r : ℚ) : (∀ y, Feas y → N.region y → r ≤ obj y) →
+      (∀ y, Feas y → N.region y → L.region y ∨ R.region y) →
+      (∀ y, L.region y → N.region y) → (∀ y, R.region y → N.region y) → L.bound = r → R.bound = r →
+      BStep Feas Acc obj eps ⟨inc, l₁ ++ N :: l₂⟩ ⟨inc, L :: R :: (l₁ ++ l₂)⟩
+  /-- warm start / rounding / LNS: any accepted candidate may be offered -/
+  | heuristic (inc l) (q : Pt) : Acc q → BStep Feas Acc obj eps ⟨inc, l⟩ ⟨BState.offer inc q (obj q), l⟩
+
+/-- the loop invariant -/
+def BInv {Pt : Type} (Feas Acc : Pt → Prop) (obj : Pt → ℚ) (eps : ℚ) (s : BState Pt) : Prop :=
+  (∀ N ∈ s.nodes, ∀ y, Feas y → N.region y → N.bound ≤ obj y) ∧
+  (∀ y, Feas y → (∀ p v, s.inc = some (p, v) → obj y < v - eps) → ∃ N ∈ s.nodes, N.region y) ∧
+  (∀ p v, s.inc = some (p, v) → Acc p ∧ obj p = v)
 
 end Solvor.Lp
